@@ -58,7 +58,8 @@ RULE = ("(c) every type of the Lean-enumerated zoo of depth 0 (31 base types x 4
         "call operators), 4 functions (type, pointer, reference, noexcept pointer) and 2 non-callables x the six forms x 0, 1, 2 "
         "int arguments and a sample with an object argument; one fixed row of plain etl-vs-std items for aligned_storage, "
         "aligned_union, conditional, enable_if, void_t, unwrap_reference, unwrap_ref_decay, predicate, relation, "
-        "equivalence_relation, strict_weak_order, boolean_testable and the <cstdint>/<cstddef> typedefs; the definitions of all traits are re-extracted from the preprocessed headers "
+        "equivalence_relation, strict_weak_order, boolean_testable, the <cstdint>/<cstddef> typedefs, the SI ratios and an "
+        "incomplete class type; the definitions of all traits are re-extracted from the preprocessed headers "
         "(g++ and clang++ branches) and the table theorems re-checked; a seeded sample of 240 (thorough: 1200) trait and limits rows is "
         "compiled a second time with clang++, which takes the other #if branch of eight traits; (b) all 32 numeric_limits members x 19 arithmetic types x 4 cv; "
         "(a) ratio<n,d> over a small grid and near-overflow values, the four arithmetic aliases and six comparisons over "
@@ -203,8 +204,10 @@ UNPROVED_OBSERVED = [
     "common_reference_with",
     "fixed row, etl vs std only: aligned_storage (explicit alignment), aligned_union, conditional, enable_if, void_t, unwrap_reference, "
     "unwrap_ref_decay, relation, equivalence_relation, strict_weak_order, boolean_testable (against libstdc++'s exposition-only "
-    "__boolean_testable), int8_t ... uintptr_t, size_t, ptrdiff_t, nullptr_t, byte, max_align_t",
-    "never instantiated by the matrix: incomplete class types, the _meta type lists; absent from tetl: is_nothrow_invocable(_r)"]
+    "__boolean_testable), int8_t ... uintptr_t, size_t, ptrdiff_t, nullptr_t, byte, max_align_t, the SI ratios atto ... exa, "
+    "17 traits of an incomplete class type",
+    "never instantiated by the matrix: the _meta type lists (no std facility of the same name); absent from tetl: "
+    "is_nothrow_invocable(_r)"]
 THEOREMS = {
     "rn": ["Tetl.C15.Props.mkRatio_rat", "Tetl.C15.Props.mkRatio_eq", "Tetl.C15.Props.mkRatio_illformed",
            "Tetl.C15.Props.mkRatio_valid", "Tetl.C15.Props.valid_num_den", "Tetl.C15.Props.reduce_lowest_terms",
